@@ -28,7 +28,7 @@ ASSUMPTIONS = ['non-dyadic scalings and time reversal are judged only when every
 DYADIC = [s * 2.0 ** k for k in (-8, -3, -1, 1, 3, 8) for s in (1, -1)] + [-1.0]
 OTHER = [3.0, -0.7, 1e3, np.pi]
 MASK_FACTORS = [2.0, 0.5, 256.0, 3.0, 1e3, 0.7]
-MASKCFG = [(mode, freqs, nph) for mode in ('ratio_sig', 'ratio_imf') for freqs in ('zc', 0.2) for nph in (1, 4)]
+MASKCFG = [(mode, freqs, nph) for mode in ('ratio_sig', 'ratio_imf') for freqs in ('zc', 0.2) for nph in (1, 4)] + [('OMITTED', 0.2, 2), ('OMITTED', 'zc', 4)]
 
 SUB24 = []
 for _i, (_st, _ip) in enumerate([(s, ip) for s in STOPS for ip in INTERPS]):
@@ -210,8 +210,15 @@ def check_sift(case):
         imf, flag = get_next_imf(sig.copy()[:, None], envelope_opts=o['envelope_opts'], extrema_opts=o['extrema_opts'], **o['imf_opts'])
         return np.c_[np.asarray(imf), np.full((len(sig), 1), float(bool(flag)))]
 
+    def f_sift_pos(sig, c=1.0):
+        # threshold and cap by position, in the documented order (X, sift_thresh, max_imfs)
+        return np.asarray(sift(sig.copy(), 1e-8 * abs(c), 3, **o))
+
     ncols = 0
-    for fname, f in (('sift', f_sift), ('get_next_imf', f_gni)):
+    forms = (('sift', f_sift), ('get_next_imf', f_gni))
+    if case[1] == 'fb' and not isinstance(case[3], (tuple, list)) and case[3] % 3 == 0:
+        forms += (('sift-positional', f_sift_pos),)
+    for fname, f in forms:
         base, bs, bt = run_guarded(lambda: f(x))
         trans += 1
         if isinstance(base, Exception):
@@ -286,6 +293,10 @@ def check_mask(case):
     amps = np.array([1.0, 0.6, 1.4, 0.8])      # one array object for all calls of this case, as a user would reuse it
 
     def f(sig, c=1.0):
+        if mode == 'OMITTED':
+            # amplitude mode not given: the documented default is a ratio (of the previous IMF), so the scaling law holds
+            return np.asarray(mask_sift(sig.copy(), mask_freqs=freqs, nphases=nph, max_imfs=4, mask_amp=amps if case[3] % 2 else list(amps),
+                                        sift_thresh=1e-8 * abs(c)))
         return np.asarray(mask_sift(sig.copy(), mask_amp_mode=mode, mask_freqs=freqs, nphases=nph, max_imfs=4,
                                     mask_amp=amps if case[3] % 2 else 1, sift_thresh=1e-8 * abs(c)))
     base, bs, bt = run_guarded(lambda: f(x))
